@@ -156,7 +156,7 @@ example : Gen.BLOCK_META_SIZE = BLOCK_META_SIZE ∧ Gen.BLOCK_META_CHECKSUM_SIZE
 example : Gen.DICT_NULL_VALUE_KEY_U32 = DICT_NULL_KEY ∧ Gen.RLE_MAX_RUN = U32_MAX := by decide
 /-- the builders get `target_block_size - 16` -/
 example : BB.new { kind := .fixed 4, nullable := false, enc := .plain, blockSize := 100 }
-    = .plain (Sub.new false (.fixed 4) (100 - Gen.BLOCK_TARGET_HEADROOM)) := by decide
+    = .plain (Sub.new false (.fixed 4) (100 - Gen.BLOCK_TARGET_HEADROOM)) := rfl
 /-- the fifth-byte guard of `decode_u32_slice` -/
 example : decodeU32Slice [0x80, 0x80, 0x80, 0x80, UInt8.ofNat (Gen.VARINT_FIFTH_BYTE_LIMIT - 1)] ≠ none
     ∧ decodeU32Slice [0x80, 0x80, 0x80, 0x80, UInt8.ofNat Gen.VARINT_FIFTH_BYTE_LIMIT] = none := by decide
